@@ -1,36 +1,69 @@
 package main
 
 import (
+	"fmt"
+	"go/token"
+	"go/types"
+
 	"golang.org/x/tools/go/ssa"
 )
 
 const pkgCC = "internal/app/connectconformance"
+const ccPath = modPath + "/" + pkgCC
+const internalPath = modPath + "/internal"
 
 func init() {
 	register(&propMeta{
 		ID: "C10",
 		Explain: "Decides structural necessary conditions of 'client multiplexer answers every request exactly once': " +
 			"(latch) every write to clientProcessRunner.terminated / closedSend stores true and the process-done handler registered in runClient stores it on every path; " +
-			"(locked) pendingOps only under pendingMu, closedSend only under sendMu; (lockorder) sendMu is never acquired while pendingMu is held; " +
-			"(once) every removal from pendingOps is paired with exactly one invocation of the removed callback or an error return of sendRequest; " +
-			"(drain) the deferred cleanup of consumeOutput publishes the error, closes the send side, drains every pending callback and closes done last; " +
-			"(unknown) an unknown/duplicate response ends the reader with a non-nil reason. " +
+			"(locked) pendingOps only under pendingMu, closedSend only under sendMu; (lockorder) sendMu is never acquired while pendingMu may be held; " +
+			"(once) registration precedes the write, the write-failure path removes the entry only if still present and then (and only then) returns the error, every removal in the reader is paired with an invocation of the removed callback; " +
+			"(drain) the deferred cleanup of consumeOutput aborts before closing the send side, closes the send side before taking pendingMu, drains every pending callback, and done is closed last; waitForResponses blocks on done; sendRequest refuses after an error or after closeSend; " +
+			"(unknown) every exit of the reader loop records a non-nil reason. " +
 			"It does NOT decide exactly-once under all interleavings or absence of deadlock with a real pipe.",
 		NotDecided: []string{"exactly-once delivery under all interleavings (lock and path rules are necessary, not sufficient)", "absence of deadlock with a real pipe", "bounded time"},
-		Assume:     []string{"sync.Mutex / atomic.Bool behave as documented", "lock identity is the access path (receiver, field)"},
+		Assume:     []string{"sync.Mutex / atomic.Bool behave as documented", "lock identity is the access path (root variable, field chain); a parameter, its capture cell and the closure's free variable denote the same object"},
 		Trusted:    commonTrusted,
 		Run:        runC10,
 	})
+	f := "internal/app/connectconformance/client_runner.go"
 	addMutants(
-		Mutant{ID: "C10-latch-D1", Prop: "C10", File: "internal/app/connectconformance/client_runner.go",
+		Mutant{ID: "C10-latch-D1", Prop: "C10", File: f,
 			Old: "result.terminated.Store(true)", New: "result.terminated.Store(false)",
 			Expect: []string{"latch.terminated"}, Note: "original defect D1: process-done handler stores false"},
+		Mutant{ID: "C10-unlocked-delete", Prop: "C10", File: f,
+			Old:    "\t\tc.pendingMu.Lock()\n\t\taction, ok := c.pendingOps[resp.TestName]\n\t\tif ok {\n\t\t\tdelete(c.pendingOps, resp.TestName)\n\t\t}\n\t\tc.pendingMu.Unlock()",
+			New:    "\t\tc.pendingMu.Lock()\n\t\taction, ok := c.pendingOps[resp.TestName]\n\t\tc.pendingMu.Unlock()\n\t\tif ok {\n\t\t\tdelete(c.pendingOps, resp.TestName)\n\t\t}",
+			Expect: []string{"locked.pendingOps"}, Note: "delete moved outside the pendingMu critical section"},
+		Mutant{ID: "C10-lockorder", Prop: "C10", File: f,
+			Old:    "\t\tc.closeSend() // stop the send side now that we're done with receive side\n\n\t\tc.pendingMu.Lock()\n\t\tdefer c.pendingMu.Unlock()",
+			New:    "\t\tc.pendingMu.Lock()\n\t\tdefer c.pendingMu.Unlock()\n\t\tc.closeSend() // stop the send side now that we're done with receive side\n",
+			Expect: []string{"lockorder", "drain.closeSend-before-drain"}, Note: "closeSend (takes sendMu) called with pendingMu held"},
+		Mutant{ID: "C10-sendfail-unconditional", Prop: "C10", File: f,
+			Old:    "\t\t_, exists := c.pendingOps[req.TestName]\n\t\tif exists {\n\t\t\tdelete(c.pendingOps, req.TestName)\n\t\t}\n\t\tc.pendingMu.Unlock()\n\n\t\tif !exists {",
+			New:    "\t\texists := true\n\t\tdelete(c.pendingOps, req.TestName)\n\t\tc.pendingMu.Unlock()\n\n\t\tif !exists {",
+			Expect: []string{"once.sendfail"}, Note: "write-failure path no longer checks whether the reader already answered"},
+		Mutant{ID: "C10-abort-after-closeSend", Prop: "C10", File: f,
+			Old:    "\t\t\tc.proc.abort()\n\t\t}\n\t\tc.closeSend() // stop the send side now that we're done with receive side\n",
+			New:    "\t\t}\n\t\tc.closeSend() // stop the send side now that we're done with receive side\n\t\tif reasonForReturn != nil {\n\t\t\tc.proc.abort()\n\t\t}\n",
+			Expect: []string{"drain.abort-before-closeSend"}, Note: "abort moved after closeSend (reader can block on sendMu held by a stuck writer)"},
+		Mutant{ID: "C10-no-reason", Prop: "C10", File: f,
+			Old:    "\t\t\t\treasonForReturn = fmt.Errorf(\"received response for unrecognized test case name %q\", resp.TestName)",
+			New:    "\t\t\t\t_ = fmt.Errorf(\"received response for unrecognized test case name %q\", resp.TestName)",
+			Expect: []string{"unknown.reason"}, Note: "unknown response ends the reader without a reason (treated like clean EOF)"},
+		Mutant{ID: "C10-drain-no-call", Prop: "C10", File: f,
+			Old:    "\t\t\taction(key, nil, &failedToGetResultError{err})\n\t\t\tdelete(c.pendingOps, key)",
+			New:    "\t\t\t_ = action\n\t\t\t_ = err\n\t\t\tdelete(c.pendingOps, key)",
+			Expect: []string{"once.delete-call"}, Note: "drain removes pending entries without invoking their callbacks"},
 	)
 }
 
 func runC10(p *Prog, r *Report) {
 	terminated := p.Field(pkgCC, "clientProcessRunner", "terminated")
 	closedSend := p.Field(pkgCC, "clientProcessRunner", "closedSend")
+	pendingOps := p.Field(pkgCC, "clientProcessRunner", "pendingOps")
+	doneF := p.Field(pkgCC, "clientProcessRunner", "done")
 	n := ruleLatch(p, r, "latch.terminated", terminated)
 	n += ruleLatch(p, r, "latch.closedSend", closedSend)
 	r.Floor("latch-writes", n, 4)
@@ -42,7 +75,7 @@ func runC10(p *Prog, r *Report) {
 	} else {
 		r.Func(funcName(runClient))
 		h, at := closureArgOfCall(runClient, func(c *ssa.CallCommon) bool {
-			return isCallToNamed(c, modPath+"/"+pkgCC, "processController", "whenDone")
+			return isCallToNamed(c, ccPath, "processController", "whenDone")
 		}, 0)
 		if h == nil {
 			r.Undecided("latch.whenDone", "R-MUSTCALL", "no handler literal passed to process.whenDone in runClient")
@@ -54,4 +87,291 @@ func runC10(p *Prog, r *Report) {
 				"process-done handler registered in runClient has a path to "+p.InstrPos(exit)+" that does not store terminated=true, so isRunning() stays true after the client exits")
 		}
 	}
+
+	// ---- lock discipline ----
+	must := NewLockInfo(p, true)
+	may := NewLockInfo(p, false)
+	na := ruleLocked(p, r, must, "locked.pendingOps", pendingOps, "pendingMu", nil)
+	nb := ruleLocked(p, r, must, "locked.closedSend", closedSend, "sendMu", nil)
+	r.Floor("locked-accesses", na+nb, 9)
+	ruleNotHeldAtCalls(p, r, may, "lockorder.sendMu-under-pendingMu", "R-LOCKORDER", func(in ssa.Instruction) bool {
+		op, key := lockOp(callCommon(in))
+		return op == "lock" && (key == "sendMu" || hasSuffix(key, ".sendMu"))
+	}, []string{"pendingMu"}, "acquiring sendMu")
+
+	sendRequest := p.Func(pkgCC, "clientProcessRunner", "sendRequest")
+	consume := p.Func(pkgCC, "clientProcessRunner", "consumeOutput")
+	waitFor := p.Func(pkgCC, "clientProcessRunner", "waitForResponses")
+	if sendRequest == nil || consume == nil || waitFor == nil || pendingOps == nil {
+		r.Undecided("once", "R-GUARD", "sendRequest/consumeOutput/waitForResponses/pendingOps not found")
+		return
+	}
+	r.Func(funcName(sendRequest))
+	r.Func(funcName(consume))
+	r.Func(funcName(waitFor))
+	isWrite := isCallNamed(internalPath, "", "WriteDelimitedMessage")
+
+	// ---- once: registration precedes the write ----
+	writes := findInstrs(sendRequest, isWrite)
+	isRegister := func(in ssa.Instruction) bool {
+		mu, ok := in.(*ssa.MapUpdate)
+		return ok && loadedField(mu.Map) == pendingOps
+	}
+	if len(writes) != 1 {
+		r.Undecided("once.register-before-write", "R-ORDER", fmt.Sprintf("expected one WriteDelimitedMessage call in sendRequest, found %d", len(writes)))
+	} else {
+		r.Sites++
+		r.Check(precededBy(writes[0], isRegister), "once.register-before-write", "R-ORDER", p.InstrPos(writes[0]),
+			"pendingOps[name] = whenDone precedes the write on every path",
+			"the request is written to the client before (or without) its callback being registered in pendingOps: a fast answer would be treated as unknown")
+		// registration only when not closed: dominated by closedSend == false
+		for _, reg := range findInstrs(sendRequest, isRegister) {
+			r.Sites++
+			ok := guardedBy(reg, func(a Atom) bool { m, v := boolTestOn(a, isLoadOfField(closedSend)); return m && !v })
+			r.Check(ok, "drain.refuse-after-close", "R-GUARD", p.InstrPos(reg),
+				"registration is on the closedSend==false edge", "a request can be registered/sent after closeSend (no closedSend check dominates the registration)")
+		}
+	}
+
+	// ---- once.sendfail: after a failed write ----
+	if len(writes) == 1 {
+		var werr ssa.Value = writes[0].(ssa.Value)
+		isWriteErr := func(a Atom) bool {
+			m, isNil := nilTestOn(a, func(v ssa.Value) bool { return v == werr })
+			return m && !isNil
+		}
+		existsAfter := func(v ssa.Value) bool { return commaOkOfLookupOn(v, pendingOps) }
+		cnt := 0
+		for _, ret := range returnsOf(sendRequest) {
+			as := atomsAt(ret.Block())
+			if !hasAtom(as, isWriteErr) {
+				continue
+			}
+			cnt++
+			r.Sites++
+			vals := retVals(ret, 0)
+			nonNil := false
+			for _, v := range vals {
+				if !isNilValue(v) {
+					nonNil = true
+				}
+			}
+			existsTrue := hasAtom(as, func(a Atom) bool { m, v := boolTestOn(a, existsAfter); return m && v })
+			existsFalse := hasAtom(as, func(a Atom) bool { m, v := boolTestOn(a, existsAfter); return m && !v })
+			switch {
+			case nonNil && !existsTrue:
+				r.Fail("once.sendfail.error-return", "R-GUARD", p.InstrPos(ret), "after a failed write sendRequest returns an error although the entry may already have been removed (and answered) by the reader: the request would be completed twice. The error return must be on the edge where the entry was still present in pendingOps")
+			case !nonNil && !existsFalse:
+				r.Fail("once.sendfail.nil-return", "R-GUARD", p.InstrPos(ret), "after a failed write sendRequest returns nil although the entry may still have been pending and was removed: the request would never be completed")
+			default:
+				r.OK(fmt.Sprintf("once.sendfail.return#%d", cnt), "R-GUARD", p.InstrPos(ret), "return value agrees with presence of the entry: "+atomsString(as))
+			}
+		}
+		if cnt < 2 {
+			r.Fail("once.sendfail.shape", "R-GUARD", p.InstrPos(writes[0]), fmt.Sprintf("expected an error return and a nil return on the write-failure path, found %d return(s)", cnt))
+		}
+		for _, d := range builtinCallsOn(sendRequest, "delete", pendingOps) {
+			r.Sites++
+			ok := guardedBy(d, func(a Atom) bool { m, v := boolTestOn(a, existsAfter); return m && v }) && guardedBy(d, isWriteErr)
+			r.Check(ok, "once.sendfail.delete", "R-GUARD", p.InstrPos(d), "removal on write failure is on the still-present edge",
+				"removal of the pending entry in sendRequest is not guarded by (write failed ∧ entry still present)")
+		}
+	}
+
+	// ---- once.delete-call: every removal in the reader is paired with a call of the removed callback ----
+	isPendingCall := func(in ssa.Instruction) bool {
+		c, ok := in.(*ssa.Call)
+		if !ok || c.Call.IsInvoke() {
+			return false
+		}
+		return fromPendingOps(c.Call.Value, pendingOps)
+	}
+	nd := 0
+	for _, fn := range withClosures(consume) {
+		for _, d := range builtinCallsOn(fn, "delete", pendingOps) {
+			nd++
+			r.Sites++
+			ok1, _ := mustPass(d, isPendingCall)
+			ok := ok1 || precededBy(d, isPendingCall)
+			r.Check(ok, fmt.Sprintf("once.delete-call@%s", funcName(fn)), "R-MUSTCALL", p.InstrPos(d),
+				"removal is paired with an invocation of a callback taken from pendingOps",
+				"an entry is removed from pendingOps in "+funcName(fn)+" on a path that never invokes the removed callback: that request is never completed")
+		}
+		// and each call of a pending callback is on the found edge / inside the drain range
+		for _, c := range findInstrs(fn, isPendingCall) {
+			r.Sites++
+			call := c.(*ssa.Call)
+			if ex, ok := call.Call.Value.(*ssa.Extract); ok {
+				if _, isLookup := ex.Tuple.(*ssa.Lookup); isLookup {
+					okEdge := guardedBy(c, func(a Atom) bool {
+						m, v := boolTestOn(a, func(x ssa.Value) bool { return commaOkOfLookupOn(x, pendingOps) })
+						return m && v
+					})
+					r.Check(okEdge && precededBy(c, func(in ssa.Instruction) bool {
+						cc := callCommon(in)
+						if cc == nil {
+							return false
+						}
+						b, ok := cc.Value.(*ssa.Builtin)
+						return ok && b.Name() == "delete" && loadedField(cc.Args[0]) == pendingOps
+					}), "once.dispatch", "R-ORDER", p.InstrPos(c), "callback invoked on the found edge after its removal",
+						"the reader invokes a pending callback without having found it / without removing it first (it could fire again from the drain)")
+				}
+			}
+		}
+	}
+	r.Floor("pending-removals", nd, 2)
+
+	// ---- drain ----
+	var drain *ssa.Function
+	var drainDefer ssa.Instruction
+	var closeDoneDefer ssa.Instruction
+	eachInstr(consume, func(in ssa.Instruction) {
+		d, ok := in.(*ssa.Defer)
+		if !ok {
+			return
+		}
+		if mc, ok := d.Call.Value.(*ssa.MakeClosure); ok {
+			if fn, ok := mc.Fn.(*ssa.Function); ok && len(builtinCallsOn(fn, "delete", pendingOps)) > 0 {
+				drain, drainDefer = fn, in
+			}
+		}
+		if b, ok := d.Call.Value.(*ssa.Builtin); ok && b.Name() == "close" && len(d.Call.Args) == 1 && loadedField(d.Call.Args[0]) == doneF {
+			closeDoneDefer = in
+		}
+	})
+	if drain == nil || closeDoneDefer == nil {
+		r.Undecided("drain", "R-ORDER", "deferred drain closure / deferred close(done) not found in consumeOutput")
+	} else {
+		r.Sites += 4
+		r.Check(precededBy(drainDefer, func(in ssa.Instruction) bool { return in == closeDoneDefer }), "drain.done-last", "R-ORDER", p.InstrPos(closeDoneDefer),
+			"defer close(done) is registered before the drain closure, so it runs after it", "close(c.done) is not registered before the drain: waiters may be released before pending callbacks fired")
+		isAbort := isCallNamed(ccPath, "processController", "abort")
+		isCloseSend := isCallNamed(ccPath, "clientProcessRunner", "closeSend")
+		aborts := findInstrs(drain, isAbort)
+		if len(aborts) == 0 {
+			r.Fail("drain.abort-before-closeSend", "R-ORDER", p.Pos(drain.Pos()), "the reader's cleanup never aborts the client process after a fatal read error")
+		}
+		for _, a := range aborts {
+			ok, _ := mustPass(a, isCloseSend)
+			nonEOF := guardedBy(a, func(at Atom) bool {
+				m, v := boolTestOn(at, isCallResult(func(c *ssa.CallCommon) bool { return isCallToNamed(c, "errors", "", "Is") }))
+				return m && !v
+			})
+			r.Check(ok && nonEOF, "drain.abort-before-closeSend", "R-ORDER", p.InstrPos(a),
+				"abort (on the non-EOF edge) is followed by closeSend on every path",
+				"the client process is not aborted before closeSend (closeSend needs sendMu, which a writer blocked on the client's stdin holds until the abort) or the abort is not restricted to non-EOF reasons")
+		}
+		for _, st := range findInstrs(drain, isStoreTrueTo(terminated)) {
+			_ = st
+		}
+		okT, _ := func() (bool, ssa.Instruction) {
+			for _, a := range aborts {
+				if precededBy(a, isStoreTrueTo(terminated)) {
+					return true, nil
+				}
+			}
+			return false, nil
+		}()
+		r.Check(okT, "drain.terminated-on-error", "R-ORDER", p.Pos(drain.Pos()), "terminated is set before aborting", "a fatal read error does not mark the client as terminated before aborting it")
+		var lockI ssa.Instruction
+		eachInstr(drain, func(in ssa.Instruction) {
+			if op, key := lockOp(callCommon(in)); op == "lock" && hasSuffix(key, "pendingMu") {
+				if _, isDefer := in.(*ssa.Defer); !isDefer && lockI == nil {
+					lockI = in
+				}
+			}
+		})
+		if lockI == nil {
+			r.Undecided("drain.closeSend-before-drain", "R-ORDER", "pendingMu.Lock not found in drain closure")
+		} else {
+			r.Check(precededBy(lockI, isCloseSend), "drain.closeSend-before-drain", "R-ORDER", p.InstrPos(lockI),
+				"closeSend precedes taking pendingMu in the cleanup", "the cleanup does not close the send side before draining (new requests could be registered after the drain and never complete)")
+		}
+	}
+	// waitForResponses blocks on done before asking for the process result
+	var recv ssa.Instruction
+	eachInstr(waitFor, func(in ssa.Instruction) {
+		if u, ok := in.(*ssa.UnOp); ok && u.Op == token.ARROW && loadedField(u.X) == doneF && recv == nil {
+			recv = in
+		}
+	})
+	r.Sites++
+	if recv == nil {
+		r.Fail("drain.wait-on-done", "R-ORDER", p.Pos(waitFor.Pos()), "waitForResponses does not block on done")
+	} else {
+		first := true
+		eachInstr(waitFor, func(in ssa.Instruction) {
+			if _, isGo := in.(*ssa.Go); isGo && !precededBy(in, func(x ssa.Instruction) bool { return x == recv }) {
+				first = false
+			}
+		})
+		r.Check(first, "drain.wait-on-done", "R-ORDER", p.InstrPos(recv), "<-done precedes everything else", "waitForResponses queries the process before done is closed")
+	}
+	// sendRequest refuses when an error was published: a return with a non-nil value before the lock
+	{
+		found := false
+		for _, ret := range returnsOf(sendRequest) {
+			if !precededBy(ret, func(in ssa.Instruction) bool { op, _ := lockOp(callCommon(in)); return op == "lock" }) {
+				for _, v := range retVals(ret, 0) {
+					if !isNilValue(v) {
+						found = true
+					}
+				}
+			}
+		}
+		r.Sites++
+		r.Check(found, "drain.refuse-after-error", "R-GUARD", p.Pos(sendRequest.Pos()), "early non-nil return when an error is published", "sendRequest no longer refuses requests after a fatal client error")
+	}
+
+	// ---- unknown: every exit of the reader records a reason ----
+	var reason *ssa.Alloc
+	eachInstr(consume, func(in ssa.Instruction) {
+		if a, ok := in.(*ssa.Alloc); ok && types.Identical(a.Type().(*types.Pointer).Elem(), types.Universe.Lookup("error").Type()) && a.Heap {
+			if reason == nil {
+				reason = a
+			}
+		}
+	})
+	if reason == nil {
+		r.Undecided("unknown.reason", "R-MUSTCALL", "reason variable of consumeOutput not found")
+	} else {
+		bad := 0
+		rets := returnsOf(consume)
+		for _, ret := range rets {
+			r.Sites++
+			for _, v := range reachingStores(reason, ret) {
+				if isNilValue(v) {
+					bad++
+					r.Fail("unknown.reason", "R-MUSTCALL", p.InstrPos(ret), "the reader loop can end at this return without recording a reason (nil reason = clean end): an unknown/duplicate response or read error would be treated as a clean EOF and the client would not be aborted")
+				}
+			}
+		}
+		if bad == 0 {
+			r.OK("unknown.reason", "R-MUSTCALL", p.Pos(consume.Pos()), fmt.Sprintf("all %d exit(s) of the reader store a non-nil reason first", len(rets)))
+		}
+	}
+}
+
+func hasSuffix(s, suf string) bool {
+	return len(s) >= len(suf) && s[len(s)-len(suf):] == suf
+}
+
+// fromPendingOps: v is a function value obtained from the pendingOps map
+// (comma-ok lookup or range value).
+func fromPendingOps(v ssa.Value, pendingOps *types.Var) bool {
+	switch x := v.(type) {
+	case *ssa.Extract:
+		switch t := x.Tuple.(type) {
+		case *ssa.Lookup:
+			return loadedField(t.X) == pendingOps
+		case *ssa.Next:
+			if rg, ok := t.Iter.(*ssa.Range); ok {
+				return loadedField(rg.X) == pendingOps
+			}
+		}
+	case *ssa.Lookup:
+		return loadedField(x.X) == pendingOps
+	}
+	return false
 }
